@@ -4,6 +4,7 @@ package yqlib
 // Only plain Go over the real yqlib types; no engine-specific constructs besides the verif* primitives.
 
 import (
+	"strings"
 	"container/list"
 
 	yaml "gopkg.in/yaml.v3"
@@ -206,3 +207,29 @@ func vBoolStr(b bool) string {
 	}
 	return "false"
 }
+
+// vYaml decodes concrete YAML text with the real yamlDecoder (yaml.v3 runs natively under the engine).
+func vYaml(text string) *CandidateNode {
+	dec := NewYamlDecoder(NewDefaultYamlPreferences())
+	if err := dec.Init(strings.NewReader(text)); err != nil {
+		verifFail("lib/yaml-init")
+	}
+	n, err := dec.Decode()
+	if err != nil {
+		verifFail("lib/yaml-decode")
+	}
+	n.filename = "f.yml"
+	return n
+}
+
+// vToYaml prints a node with the real yamlEncoder.
+func vToYaml(n *CandidateNode) (string, error) {
+	var sb strings.Builder
+	prefs := NewDefaultYamlPreferences()
+	err := NewYamlEncoder(prefs).Encode(vSBWriter{&sb}, n)
+	return sb.String(), err
+}
+
+type vSBWriter struct{ sb *strings.Builder }
+
+func (w vSBWriter) Write(p []byte) (int, error) { return w.sb.Write(p) }
